@@ -403,15 +403,16 @@ def interpA64Base (env : Env) (tok : Str) : Option PMem :=
   | some r => some { terms := [(r, 1)], home := home }
   | none => if home then none else (parseLabel env name).map fun id => { label := some id }
 
-/-- `[base]`, `[base, off]`, `[base, off]!`, `[base], off`, `[base, index ext n]`, `[base], index` -/
-def parseA64Mem (env : Env) (s : Str) : Option PMem :=
-  match lexPieces isA64MemDelim s.length s with
+/-- the pieces of `[base]`, `[base, off]`, `[base, off]!`, `[base], off`, `[base, index ext n]`, `[base], index` -/
+def interpA64Pieces (env : Env) : List Piece → Option PMem
   | (some '[', b) :: rest =>
     (interpA64Base env b).bind fun m =>
     match rest with
     | (some ']', []) :: (some ',', []) :: r2 => interpA64Tail env { m with mode := 2 } true ((some ',', []) :: r2)
     | _ => interpA64Tail env m false rest
   | _ => none
+
+def parseA64Mem (env : Env) (s : Str) : Option PMem := interpA64Pieces env (lexPieces isA64MemDelim s.length s)
 
 def parseA64RegList (env : Env) (s : Str) : Option (List PReg) := do
   let s ← stripPrefix? ['{'] s
